@@ -205,6 +205,7 @@ STALE_KEYS = {
     "defaults": ["devfeat:lpc5506/latest", "defaults:comm_buffer", "dev:lpc5506"],
     "schema": ["sch:tz"],
     "schema2": ["sch:general"],
+    "schema_deleted": ["sch:tz"],
 }
 AUDIT_WORKLOAD = [["key", k] for ks in STALE_KEYS.values() for k in ks] + [["cfg", 0], ["cfg", 1], ["cfg", 2], ["quick", 0], ["quick", 5], ["dev", 3]]
 
@@ -213,6 +214,9 @@ STALE_TARGETS = {
     "defaults": ("common/database_defaults.yaml", r"^    size: 0x1000\s*$", "    size: 0x%d000"),
     "schema": ("jsonschemas/sch_tz.yaml", r"title: .*$", "title: Stale title %d"),
     "schema2": ("jsonschemas/sch_general.yaml", r"title: .*$", "title: Stale title %d"),
+    # a cached data file that is gone (editable install after switching branches, a restricted-data folder that was
+    # unmounted): with the cache disabled the query fails, so it must fail with the cache too
+    "schema_deleted": ("jsonschemas/sch_tz.yaml", None, None),
 }
 
 
@@ -233,10 +237,16 @@ class DataState:
         path = os.path.join(_W.scratch, "data", rel)
         if PROFILES[self.profile] is None or not os.path.exists(path):
             return False
+        if any(t_.endswith("_deleted") for t_, _v in self.mods):
+            return False  # one deletion per run keeps the data states few
         with open(path, "rb") as f:
             cur = f.read()
         self.orig.setdefault(rel, cur)
         self.gen += 1
+        if pat is None:
+            os.remove(path)
+            self.mods.append((target, 0))
+            return True
         same_size = variant >= 3  # variants 3..5: an in-place edit that keeps the file size (only the mtime tells)
 
         def sub(mo):
